@@ -28,7 +28,7 @@ func init() {
 		Cases: func(seed uint64, tier string) []Case {
 			n := 240
 			if !quick(tier) {
-				n = 4000
+				n = 2000
 			}
 			var cs []Case
 			for i := 0; i < n; i++ {
@@ -36,7 +36,7 @@ func init() {
 			}
 			nt := 80
 			if !quick(tier) {
-				nt = 1000
+				nt = 500
 			}
 			for i := 0; i < nt; i++ {
 				cs = append(cs, Case{Kind: "tree", Seed: h.Mix(seed, 0xC02A, uint64(i))})
